@@ -186,11 +186,12 @@ def make_desc(old, route, dest, cfg, pay):
             "shallow": shallow, "deep": deep, "pickle": pickle_, "pay": pay, "dpay": DPAY}
 
 
-WITNESSES = [   # the inputs of the ..._refuted theorems of props/C04.v, replayed on the real code in every run
+WITNESSES = [   # the inputs of the ..._refuted / ..._example theorems of props/C04.v, replayed on the real code in every run
     ({"a": 0}, ["edit", [], ["set", "a", typed(1)]], "DAbsent", ("PInit", False, 0, False, False)),
     ({"a": 0}, ["edit", [], ["set", "a", typed(1)]], "DAbsent", ("PIdFresh", False, 1, False, False)),
     ({"a": 1}, ["assign", typed({"a": True})], "DAbsent", ("PInit", False, 0, False, False)),
     ({"a": [1, 2]}, ["assign", typed({"a": [1, 3]})], "DAbsent", ("PInit", False, 0, False, False)),
+    ({"a": [1, 2], "x": 0}, ["assign", typed({"a": [1, 3, 4], "x": 1})], "DAbsent", ("PInit", False, 1, True, False)),
 ]
 
 
